@@ -77,6 +77,8 @@ def run(repo, res, tier):
     res.assumptions = ["int()/float() acceptance languages (Python language reference)", "_strptime.TimeRE directive patterns",
                        "dateutil is absent from the interpreter that runs pvl (OmniDecoder falls back to ValueError)"]
     rule_g1(repo, res)
+    from .. import hookrules as _hk
+    _hk.rule_token_init(repo, res)
     an = langrules.analyse(repo)
     langrules.rule_g2(repo, res, an)
     langrules.rule_s1(repo, res, an, "own")
